@@ -874,6 +874,12 @@ func (t *tokenizer) skipSingleLineComment() error {
 // SkipBlockComment skips over the body of a block comment, terminated
 // by a '*/' sequence.
 func (t *tokenizer) skipBlockComment() error {
+	// The caller has only peeked at the '*' that opens the comment; consume it so
+	// that it cannot also serve as the '*' of the closing "*/" (as in "/*/").
+	if _, err := t.read(); err != nil {
+		return err
+	}
+
 	star := false
 	for {
 		c, err := t.read()
